@@ -24,9 +24,18 @@ Sensitivity (quick tier, seed 1, scratch copies; all caught = exit 1):
   * exception lines joined *after* the replace ......................... caught (C45.newline_not_indented)
   * ``replace("\\n", "\\n    ", 1)`` (first newline only) .................. caught (C45.newline_not_indented)
   * ``except Exception`` around getMessage narrowed to ``except TypeError`` caught (C45.format_raised)
+  * ``LogFormatter._colors`` turned into a class-level dict filled in place and the ``else: self._normal = ""`` branch
+    dropped (once any colour-enabled formatter exists, every plain one takes the colour branch and format() raises
+    AttributeError) ... caught at seeds 1,2,3 (C45.format_raised, formatter history:plain) by formatter *histories*:
+    2-4 LogFormatter instances per case built in a generated order with colour support present (stub curses or
+    colorama + tty stderr installed as tornado.log module attributes for the constructor call only), absent, or not
+    requested, all formatting the same record; plus the deterministic ``orders`` part = every order of 2 and 3
+    formatter kinds on three fixed log calls (ninth-round "state carried over" mutation testing)
   * ``_safe_unicode`` without the ``repr`` fallback: *equivalent* on Python 3 (getMessage always returns
     ``str``; bytes never reach it), not counted.
 """
+import contextlib
+import itertools
 import logging
 import sys
 
@@ -106,6 +115,8 @@ case_s = st.fixed_dictionaries({
     "stack_info": st.sampled_from([False, False, False, True]),
     "extra_user": st.one_of(st.none(), text_s),
     "created": st.integers(0, 4 * 10 ** 9),
+    "history": st.lists(st.sampled_from(["plain", "plain_custom_fmt", "color_curses", "color_colorama", "color_curses_error_only",
+                                         "color_unsupported"]), max_size=4),
 })
 
 
@@ -260,6 +271,126 @@ def forced_color_formatter(**kw):
     return f
 
 
+# ----------------------------------------------------------------------------- colour support, made available on demand
+class _FakeTTY:
+    def __init__(self, tty):
+        self._tty = tty
+
+    def isatty(self):
+        return self._tty
+
+    def write(self, data):
+        return len(data)
+
+    def flush(self):
+        pass
+
+
+class _SysShim:
+    """Stands in for the name ``sys`` inside tornado.log: only ``stderr`` differs."""
+
+    def __init__(self, stderr):
+        self.stderr = stderr
+
+    def __getattr__(self, name):
+        return getattr(sys, name)
+
+
+class _FakeCurses:
+    """The four curses calls LogFormatter uses, answering like an 8-colour ANSI terminal."""
+
+    def setupterm(self, *a, **kw):
+        return None
+
+    def tigetnum(self, cap):
+        return 8 if cap == "colors" else -1
+
+    def tigetstr(self, cap):
+        return {"setaf": b"\x1b[3%p1%dm", "sgr0": b"\x1b(B\x1b[m"}.get(cap)
+
+    def tparm(self, fmt, code):
+        return b"\x1b[3%dm" % code
+
+
+class _FakeColorama:
+    class initialise:  # noqa: N801  (mirrors colorama.initialise.wrapped_stderr)
+        wrapped_stderr = None
+
+
+@contextlib.contextmanager
+def color_support(mode):
+    """Scoped replacement of the names tornado.log._stderr_supports_color consults (module attributes of tornado.log,
+    restored in ``finally``): mode 'curses' = tty + curses, 'colorama' = tty + no curses + colorama wrapping stderr,
+    'none' = stderr is not a tty."""
+    import tornado.log as tlog
+    saved = (tlog.sys, tlog.curses, tlog.colorama)
+    tty = _FakeTTY(mode != "none")
+    try:
+        tlog.sys = _SysShim(tty)
+        if mode == "curses":
+            tlog.curses = _FakeCurses()
+        elif mode == "colorama":
+            tlog.curses = None
+            fake = _FakeColorama()
+            fake.initialise = type("initialise", (), {"wrapped_stderr": tty})
+            tlog.colorama = fake
+        yield
+    finally:
+        tlog.sys, tlog.curses, tlog.colorama = saved
+
+
+HISTORY_KINDS = ["plain", "plain_custom_fmt", "color_curses", "color_colorama", "color_curses_error_only", "color_unsupported"]
+
+
+def build_history_formatter(kind):
+    if kind == "plain":
+        return LogFormatter(color=False)
+    if kind == "plain_custom_fmt":
+        return LogFormatter(fmt="%(color)s%(levelname)s%(end_color)s %(message)s", color=False)
+    if kind == "color_curses":
+        with color_support("curses"):
+            return LogFormatter(color=True)
+    if kind == "color_colorama":
+        with color_support("colorama"):
+            return LogFormatter(color=True)
+    if kind == "color_curses_error_only":
+        with color_support("curses"):
+            return LogFormatter(color=True, colors={logging.ERROR: 1})
+    if kind == "color_unsupported":
+        with color_support("none"):
+            return LogFormatter(color=True)
+    raise AssertionError(kind)
+
+
+def judge(ctx, case, labels, fname, fmt, record):
+    """The statement's oracle for one formatter: str result, no exception, every LF followed by indentation."""
+    # each formatter gets a fresh copy of the record state that format() caches
+    record.exc_text = case["exc_text"]
+    record.__dict__.pop("message", None)
+    try:
+        out = fmt.format(record)
+    except Exception as e:
+        ctx.note(case, labels, True)
+        ctx.fail("C45.format_raised", {"formatter": fname, "exc": repr(e)[:300], "case": case})
+        return False
+    if not isinstance(out, str):
+        ctx.fail("C45.result_not_str", {"formatter": fname, "type": type(out).__name__})
+    pos = out.find("\n")
+    while pos != -1:
+        nxt = out[pos + 1:pos + 2]
+        if nxt not in (" ", "\t"):
+            ctx.note(case, labels, True)
+            ctx.fail("C45.newline_not_indented",
+                     {"formatter": fname, "at": pos, "around": out[max(0, pos - 30):pos + 40], "case": case})
+            return False
+        pos = out.find("\n", pos + 1)
+    if "\n" in out:
+        labels.add("multiline_output")
+    if fmt._colors and record.levelno in fmt._colors and "\x1b[" in out:
+        labels.add("colored_output")
+    return True
+
+
 FORMATTERS = [
     ("plain", lambda: LogFormatter(color=False)),
     ("color_true", lambda: LogFormatter(color=True)),
@@ -358,36 +489,51 @@ def run_case(ctx, case):
         fmt = make()
         if fname == "color_true":
             labels.add("color_true_available" if fmt._colors else "color_true_unavailable")
-        # each formatter gets a fresh copy of the record state that format() caches
-        record.exc_text = case["exc_text"]
-        record.__dict__.pop("message", None)
-        try:
-            out = fmt.format(record)
-        except Exception as e:
-            ctx.note(case, labels, True)
-            ctx.fail("C45.format_raised", {"formatter": fname, "exc": repr(e)[:300], "case": case})
+        if not judge(ctx, case, labels, fname, fmt, record):
             return
-        if not isinstance(out, str):
-            ctx.fail("C45.result_not_str", {"formatter": fname, "type": type(out).__name__})
-        pos = out.find("\n")
-        while pos != -1:
-            nxt = out[pos + 1:pos + 2]
-            if nxt not in (" ", "\t"):
-                ctx.note(case, labels, True)
-                ctx.fail("C45.newline_not_indented",
-                         {"formatter": fname, "at": pos, "around": out[max(0, pos - 30):pos + 40], "case": case})
-                return
-            pos = out.find("\n", pos + 1)
-        if "\n" in out:
-            labels.add("multiline_output")
-        if fmt._colors and record.levelno in fmt._colors and "\x1b[" in out:
-            labels.add("colored_output")
+    # ---- formatter histories: several LogFormatter instances alive at once, constructed in the case's order with
+    # colour support present (stubbed curses / colorama + tty stderr), absent, or not requested; then every one of
+    # them formats the record (construction order, then reverse).  Each is judged on its own.
+    history = list(case.get("history") or [])
+    built = []
+    for kind in history:
+        built.append((kind, build_history_formatter(kind)))
+        labels.add("hist_" + kind)
+    if len(built) >= 2:
+        labels.add("hist_two_or_more_instances")
+        if any(k.startswith("color_c") for k, _ in built) and any(k.startswith("plain") for k, _ in built):
+            labels.add("hist_color_and_plain_together")
+    for kind, fmt in built + built[::-1]:
+        if kind.startswith("color_c") and not fmt._colors:
+            ctx.fail("C45.harness_color_stub_ineffective", {"kind": kind})
+        if not judge(ctx, case, labels, "history:" + kind, fmt, record):
+            return
     ctx.note(case, labels, nontrivial=has_nl or "bad_format_args" in labels)
 
 
-PARTS = {"main": run_case}
+# every order of two and three formatter kinds, on three fixed log calls (deterministic)
+ORDER_RECORDS = [
+    {"name": "c45", "level": 40, "msg": ("str", "plain message"), "args": ("none",), "exc": None, "exc_text": None,
+     "stack_info": False, "extra_user": None, "created": 1700000000},
+    {"name": "c45", "level": 20, "msg": ("str", "two\nlines %s" + FORGED), "args": ("tuple", [("str", "arg\nwith newline")]),
+     "exc": ("raise", [("ValueError", "bad\nvalue")], "cause"), "exc_text": None, "stack_info": False, "extra_user": "u\nv",
+     "created": 1700000000},
+    {"name": "x\ny", "level": 25, "msg": ("bytes", b"\xff\n[E forged]"), "args": ("tuple", [("int", 1)]), "exc": None,
+     "exc_text": "preset\nexc text", "stack_info": True, "extra_user": None, "created": 0},
+]
+
+
+def order_cases():
+    for n in (2, 3):
+        for hist in itertools.product(HISTORY_KINDS, repeat=n):
+            for rec in ORDER_RECORDS:
+                yield dict(rec, history=list(hist))
+
+
+PARTS = {"main": run_case, "orders": run_case}
 
 
 def main(ctx):
     ctx.run_replays(PARTS)
+    ctx.enumerate(order_cases(), run_case, name="orders")
     ctx.explore(case_s, run_case, ctx.n(4000, 300000), name="main")
